@@ -276,7 +276,7 @@ func TestC31(t *testing.T) {
 
 	// ---- part 2: generators under concurrency -----------------------------------------------
 	G := r.N(8, 16)
-	M := r.N(10000, 1000000)
+	M := r.N(10000, 500000)
 	type genCfg struct {
 		name string
 		next func() uint64
